@@ -127,7 +127,9 @@ func eqStrs(a, b []string) bool {
 // tagged as known finding) or nil.
 func c03Invariants(c Cfg, model OriginModel, debug bool, r Req, resp Resp) *Disc {
 	H := resp.Hdr
-	where := func() string { return fmt.Sprintf("cfg %+v debug=%v request {%s} -> status %d headers %s", c, debug, r.Brief(), resp.Status, abbrev(hdrSig(H), 600)) }
+	where := func() string {
+		return fmt.Sprintf("cfg %+v debug=%v request {%s} -> status %d headers %s", c, debug, r.Brief(), resp.Status, abbrev(hdrSig(H), 600))
+	}
 	origin, hasOrigin := firstVal(r, hOrigin)
 	anonAll := c.AllowAll() && !c.Credentialed
 	pf := isPreflight(r)
